@@ -493,6 +493,8 @@ func checkC16(c *Ctx) {
 	checkErrPolarity(c, "C16.err-polarity")
 	checkRound4Misc(c, "C16")
 	checkC16ArgDropped(c)
+	checkDeleteCharStays(c, "C16.delete-char-in-line")
+	checkInsertCopies(c, "C16.insert-copies")
 }
 
 func instrString(in ssa.Instruction) string {
